@@ -14,6 +14,11 @@ CHECKS = {
     technique='explicit-state BFS to fixpoint over the real engine per (object kind, usage-mask variant); thorough adds the unmerged depth-3 sequence tree with a differential check of the state abstraction',
     text='For each of 7 stored object kinds x 16 usage-mask variants every one of 26 actions (Activate, Revoke with each reason code, Destroy, Encrypt, Decrypt, Sign, SignatureVerify, MAC, DeriveKey as first/second base, Get wrapped by it, Set/Modify/DeleteAttribute aimed at State) is executed in every reachable lifecycle state of the real engine until no new state appears; every observed transition must be an allowed lifecycle edge and every succeeding cryptographic use must find the object Active, of the right kind and with the matching mask bit. Exhaustive over the reachable canonical state space, which is finite and reaches a fixpoint.',
     note='Canonical state = (kind, mask variant, lifecycle state | destroyed); soundness of merging is checked in the thorough tier by requiring equal answers from all depth-3 histories reaching the same canonical state. One object under test at a time; right-kind table and CA_COMPROMISE reading as in DESIGN.md 4a.'),
+ 'C18': dict(
+    category='model_checking', design_ref='DESIGN.md 4/C18',
+    technique='explicit-state BFS over file-event sequences on the real PolicyDirectoryMonitor and a real directory (state dedup on monitor structures + reference-model state), plus exhaustive 0/1/2-fault enumeration of policy documents against an independent parser',
+    text='(i) Every sequence of up to 4 (quick) / 5 (thorough, 2 files) / 4 (thorough, 3 files) file events (write one of 9 contents, remove, and four simultaneous two-file changes; 24 events per step for 2 files) is applied to a real directory, each followed by a real scan_policies(); after every scan the store must equal the latest-loaded-definition reference model, the built-in policies must be identical objects, and nothing may be raised. (ii) Every policy document obtained from 5 documented shapes by 0, 1 or 2 structural faults at every JSON node, every truncation and character fault of the text, and a list of literal edge documents is parsed by read_policy_from_file and by an independent reference parser: valid documents must parse to the reference result, documents with a listed invalidity must be rejected, and no exception other than ValueError may escape.',
+    note='mtimes are set by the harness (strictly increasing); canonical state includes the monitor structures and the model state, so merging is sound by construction; depth-bounded (the cache can grow without bound, so no fixpoint). Undocumented-but-harmless shapes (empty policy object, null/empty sections) may be accepted or rejected.'),
 }
 
 NOT_YET = {}
